@@ -50,6 +50,19 @@ def run(ctx):
         modelled = set(decgen.model_methods(ctx.model))
         lines, meta = [], []     # meta: (group id, method, declared, monitor_at, nreads, kind)
         gid = 0
+        # corpus first: minimised failures (each file is one group of schedules over the same stream)
+        import glob
+        for p in sorted(glob.glob(os.path.join(common.VERIF, "corpus", PID, "*.txt"))):
+            gid += 1
+            for l in open(p):
+                l = l.strip()
+                if l:
+                    t = l.split()
+                    reads = t[5]
+                    nreads = sum((int(x.split("*")[1]) if "*" in x else 1) for x in reads.split(","))
+                    lines.append(l)
+                    meta.append((gid, t[1], int(t[4]), int(t[6]), nreads, "corpus"))
+                    dist["corpus"] += 1
         for (m, data, tlen, kind) in streams(ctx, rnd, cb):
             decls = {tlen}
             if kind == "valid":
@@ -71,6 +84,24 @@ def run(ctx):
                     meta.append((gid, m, decl, mon, nreads, kind))
                     dist[m + ":" + kind] += 1
         co = common.run_lines_parallel([cexe], lines)
+        # the same cases on an optimised, unsanitised gcc build (what users run): uninitialised reads show
+        # there as schedule-dependent output rather than as a sanitizer report
+        gexe = cb.compile("drv_dec_plain", [os.path.join(common.CDIR, "drv_dec.c")] + cb.lib_sources(), sanitize=False, cc="gcc",
+                          extra=["-O2"])
+        lines_nj = [" ".join(l.split()[:-1] + ["-1"]) for l in lines]
+        go = common.run_lines_parallel([gexe], lines_nj)
+        plain_groups = collections.defaultdict(list)
+        for (ln, mt, g_) in zip(lines_nj, meta, go):
+            pg = decgen.parse(g_)
+            if "h" in pg:
+                plain_groups[mt[0]].append((pg["h"], int(pg["len"]), ln, g_))
+        for g, items in plain_groups.items():
+            if len({(h, l) for h, l, _, _ in items}) > 1:
+                a = items[0]
+                b = [x for x in items if (x[0], x[1]) != (a[0], a[1])][0]
+                viol.append({"property": PID, "kind": "split-variance", "build": "gcc -O2, no sanitizer, callback buffer not pre-filled",
+                             "what": "different read splits returned different bytes", "case": a[2][:4000], "case2": b[2][:4000],
+                             "observed": a[3][:200], "observed2": b[3][:200], "sig": "split-plain:" + a[2].split()[1]})
         midx = [i for i, mt in enumerate(meta) if mt[1] in modelled]
         mo_part = common.run_lines_parallel([ctx.model], [lines[i] for i in midx])
         mo = {i: o for i, o in zip(midx, mo_part)}
@@ -140,7 +171,11 @@ def run(ctx):
 def replay(payload):
     cb = CBuild(PID)
     try:
-        cexe = build(cb)
+        if "build" in payload:
+            cexe = cb.compile("drv_dec_plain", [os.path.join(common.CDIR, "drv_dec.c")] + cb.lib_sources(), sanitize=False,
+                              cc="gcc", extra=["-O2"])
+        else:
+            cexe = build(cb)
         cs = [payload["case"]] + ([payload["case2"]] if "case2" in payload else [])
         out = common.run_lines_parallel([cexe], cs)
         for c, o in zip(cs, out):
